@@ -15,7 +15,7 @@ reg("C16", "grid geometry conversions are mutually inverse",
                  oracles=dict(quick={"rank-idx-rank": 200000, "idx-coord-idx": 200000, "idx-coord-idx-centered": 200000,
                                      "point-in-cell": 20000, "dbgrid-stored": 100000, "migrate-cell": 10000,
                                      "derived-subgrid": 500},
-                              thorough={"rank-idx-rank": 20000000, "idx-coord-idx": 20000000, "point-in-cell": 600000,
+                              thorough={"rank-idx-rank": 12000000, "idx-coord-idx": 12000000, "point-in-cell": 600000,
                                         "migrate-cell": 200000, "derived-subgrid": 9000})),
     assumptions=["node(i) = X0 + R*(i.*DX) with X0 the first node (DbGrid.hpp class comment) and R built from the angles as "
                  "documented in GeometryHelper::rotation2D/3DMatrixInPlace (successive right-handed rotations; calibrated)",
